@@ -2,6 +2,7 @@ package main
 
 import (
 	"fmt"
+	"go/token"
 	"strings"
 
 	"golang.org/x/tools/go/ssa"
@@ -235,6 +236,26 @@ func runC17(r *Run) {
 				r.Pass("C17.3", con, w.InstrPos(calls[0]), "broadcast unconditionally")
 				continue
 			}
+			// what the change test of a vote kind is computed from: the signatures in that kind's
+			// proofs (a count per target), never the weighted VoteSummary (a signature of a
+			// zero-power validator, or any change that leaves the power sums equal, must still be sent)
+			if helper != "broadcastProposedBlocks" {
+				kind := strings.TrimSuffix(strings.TrimPrefix(helper, "broadcast"), "s") // Prevote / Precommit
+				ifi := guard.Instrs[len(guard.Instrs)-1].(*ssa.If)
+				srcs := map[string]bool{}
+				countSources(w, a, ifi.Cond, 0, srcs, map[ssa.Value]bool{})
+				fromProofs, fromSummary := false, false
+				for sname := range srcs {
+					if strings.Contains(sname, ".RoundView."+kind+"Proofs") {
+						fromProofs = true
+					}
+					if strings.Contains(sname, ".VoteSummary") {
+						fromSummary = true
+					}
+				}
+				r.Check(fromProofs && !fromSummary, "C17.3", "tmgossip.ChattyStrategy.broadcastUpdatesOnly("+strings.ToLower(kind)+"-predicate-source)", w.InstrPos(ifi),
+					"the "+kind+" change test must be computed from the signatures in both views' "+kind+"Proofs and not from the vote summary's power figures; it reads: "+strings.Join(setKeys(srcs), " | "))
+			}
 			ok := true
 			where := ""
 			for _, ret := range a.Returns() {
@@ -283,4 +304,74 @@ func phiTakes(v ssa.Value, cur string, a *FnA) bool {
 		}
 	}
 	return false
+}
+
+// countSources collects the data a computed number depends on: fields read,
+// arguments of helper calls, and the operands of the range loops in which it
+// is accumulated (a count filled by side effect inside `for _, p := range m`
+// depends on m).
+func countSources(w *World, a *FnA, v ssa.Value, depth int, out map[string]bool, seen map[ssa.Value]bool) {
+	if v == nil || depth > 8 || seen[v] {
+		return
+	}
+	seen[v] = true
+	addLoop := func(in ssa.Instruction) {
+		for b := range loopOf(in.Block()) {
+			for _, x := range b.Instrs {
+				if nx, ok := x.(*ssa.Next); ok {
+					if rg, ok := nx.Iter.(*ssa.Range); ok {
+						out[a.sh.Of(rg.X).String()] = true
+					}
+				}
+			}
+		}
+	}
+	switch x := v.(type) {
+	case *ssa.Const:
+	case *ssa.Phi:
+		for _, e := range x.Edges {
+			countSources(w, a, e, depth+1, out, seen)
+		}
+	case *ssa.BinOp:
+		addLoop(x)
+		countSources(w, a, x.X, depth+1, out, seen)
+		countSources(w, a, x.Y, depth+1, out, seen)
+	case *ssa.UnOp:
+		if x.Op == token.MUL {
+			if rs := reachingStore(x); rs != nil {
+				countSources(w, a, rs, depth+1, out, seen)
+				return
+			}
+			if al, ok := x.X.(*ssa.Alloc); ok {
+				for _, sv := range a.sh.allocInfo(al).whole {
+					countSources(w, a, sv, depth+1, out, seen)
+				}
+				return
+			}
+			out[a.sh.Of(x).String()] = true
+			return
+		}
+		countSources(w, a, x.X, depth+1, out, seen)
+	case *ssa.Convert:
+		countSources(w, a, x.X, depth+1, out, seen)
+	case *ssa.Call:
+		addLoop(x)
+		callee := x.Call.StaticCallee()
+		if callee != nil && callee.Blocks != nil && w.IsProd(callee) {
+			for _, arg := range x.Call.Args {
+				out[a.sh.Of(arg).String()] = true
+			}
+			return
+		}
+		// library call (e.g. BitSet.Count on a scratch set filled in the loop): covered by the loop operand
+		for _, arg := range x.Call.Args {
+			if _, isAlloc := arg.(*ssa.Alloc); !isAlloc {
+				countSources(w, a, arg, depth+1, out, seen)
+			}
+		}
+	case *ssa.Extract:
+		countSources(w, a, x.Tuple, depth+1, out, seen)
+	default:
+		out[a.sh.Of(v).String()] = true
+	}
 }
